@@ -300,7 +300,7 @@ def _groups(et, m):
                         L + "legalfloor.ModelModule.add_rect_east", L + "legalfloor.ModelModule.add_rect_west", L + "legalfloor.Model.fix",
                         L + "legalfloor.smax", L + "legalfloor.thin", L + "model.ModelWrapper.add_constraint", L + "model.ModelWrapper.fix_variable"],
           scope="per instance (netlist constants concrete), ALL configurations symbolic",
-          params=[dict(inst=i, part=p) for i in QUICK for p in range(4)], budget_s=900, vc_timeout_s=60)
+          params=[dict(inst=i, part=p) for i in QUICK for p in range(4)], budget_s=1500, vc_timeout_s=150)
 def legal_implies_met(S, inst, part):
     """for all configurations: every clause of legality holds (strictly)  =>  every equation of the built model is met"""
     lf, et, n, m, spec = build(inst)
@@ -346,7 +346,7 @@ def _conc_met0(et, e):
 
 @contract(P, functions=[L + "legalfloor.Model.first_build_model", L + "expression_tree.Equation.is_equation_met"],
           scope="per instance (netlist constants concrete), ALL configurations symbolic", params=[dict(inst=i) for i in QUICK],
-          budget_s=900, vc_timeout_s=60)
+          budget_s=1500, vc_timeout_s=150)
 def met_implies_legal(S, inst):
     """for all configurations: every equation of a group is met  =>  the legality clauses that group is responsible for hold
     (within the documented tolerances)"""
